@@ -12,8 +12,8 @@ def sig(rec, clauses):
 
 def run(c):
     th = c.thorough()
-    c.rule = ("model: every undirected strength graph on 4 nodes x 1-3 ranks and on 5 nodes x 2 ranks (thorough: 1-3), every "
-              "digraph on 3 nodes, each with every contiguous partition (empty ranks included) and every order of the ranks "
+    c.rule = ("model: every undirected strength graph on 4 nodes x 1-3 ranks and on 5 nodes x 2-3 ranks (thorough: 1-3, and 6 nodes x 2 "
+              "ranks), every digraph on 3 (thorough: 4) nodes, each with every contiguous partition (empty ranks included) and every order of the ranks "
               "inside a phase, without a round counter (termination is a temporal property); consolidation: every partition of "
               "4 rows over 1-4 ranks x 1-3 requested masters; code: mpirun -n {1,2,3,5} (thorough 1..8): the real pmis on the same "
               "graph space (thinned for more ranks) + random M-matrices, the real mpi::amg hierarchy through recording "
@@ -41,11 +41,13 @@ def run(c):
         # four small state spaces: run side by side (distinct cfg files: the derived configs must not collide)
         c.parallel([
             lambda: c.tlc_model("PmisModel", constants={"NN": 4, "MinNP": 1, "MaxNP": 3, "Sym": "TRUE"}, workers=4),
-            lambda: c.tlc_model("PmisModel", cfg="PmisModel5.cfg", constants={"NN": 5, "MinNP": 1 if th else 2, "MaxNP": 3 if th else 2, "Sym": "TRUE"},
-                                workers=4 if not th else 8, timeout=2400),
+            lambda: c.tlc_model("PmisModel", cfg="PmisModel5.cfg", constants={"NN": 5, "MinNP": 1 if th else 2, "MaxNP": 3, "Sym": "TRUE"},
+                                workers=6 if not th else 8, timeout=2400),
             lambda: c.tlc_model("PmisModel", cfg="PmisModelDi.cfg", constants={"NN": 4 if th else 3, "MinNP": 1, "MaxNP": 3, "Sym": "FALSE"},
                                 workers=4 if not th else 8, timeout=2400),
-            lambda: c.tlc_model("Consolidation", workers=2)])
+            lambda: c.tlc_model("Consolidation", workers=2)]
+            + ([lambda: c.tlc_model("PmisModel", cfg="PmisModel6.cfg", constants={"NN": 6, "MinNP": 2, "MaxNP": 2, "Sym": "TRUE"},
+                                    workers=8, timeout=3000)] if th else []))
 
     def validate(t, label, chunk):
         lines = [x for x in open(t).read().splitlines() if x.startswith("{") and x.endswith("}")]
@@ -66,7 +68,7 @@ def run(c):
 
         def one(job):
             n, mode, env, chunk = job
-            t = c.record(rs, [mode], mpi=n, env=dict(mca, **env), out=c.path("s-%s-%d.ndjson" % (mode, n)), timeout=900,
+            t = c.record(rs, [mode], mpi=n, env=dict(mca, **env), out=c.path("s-%s-%d.ndjson" % (mode, n)), timeout=1800 if th else 400,
                          hang_is_violation=True, sig={"np": n, "mode": mode})
             return validate(t, "%s@%dranks" % (mode, n), chunk)
         for res in c.parallel([lambda j=j: one(j) for j in jobs], max_workers=3):
